@@ -11,7 +11,9 @@ import (
 	"sync"
 	"sync/atomic"
 
+	"github.com/MinterTeam/minter-go-node/api/v2/service"
 	"github.com/MinterTeam/minter-go-node/coreV2/types"
+	pb "github.com/MinterTeam/node-grpc-gateway/api_pb"
 )
 
 // readerPool: goroutines that serve read-only API queries against the node while the harness executes ABCI calls (C25).
@@ -29,11 +31,13 @@ type readerPool struct {
 	coinIDs  []uint64
 	pubs     []types.Pubkey
 	schedule map[string][]string
+	svc      *service.Service // the node's own API handlers (query kind "api")
 }
 
 func newReaderPool(nd *Node, n int, schedule map[string][]string, seed int64) *readerPool {
 	p := &readerPool{nd: nd, served: map[string]int{}, schedule: schedule}
 	p.kinds.Store([]string{})
+	p.svc = service.NewService(nd.App, nil, nil, nd.cfg(), "verif", nil)
 	for _, name := range []string{"a1", "a2", "a3", "a4", "a5", "o1", "o2", "zero", "dao"} {
 		p.addrs = append(p.addrs, nd.N.Addr(name))
 	}
@@ -154,6 +158,35 @@ func (p *readerPool) one(kind string, rnd *rand.Rand) {
 		h := atomic.LoadUint64(&p.lastH)
 		_ = cs.FrozenFunds().GetFrozenFunds(h + uint64(rnd.Intn(40)))
 		_ = cs.Halts().GetHaltBlocks(h + uint64(rnd.Intn(4)))
+	case "api":
+		// the handlers the gRPC gateway calls (current height): they read through the same state objects block execution writes
+		ctx := context.Background()
+		a := p.addrs[rnd.Intn(len(p.addrs))]
+		switch rnd.Intn(9) {
+		case 0:
+			_, _ = p.svc.Address(ctx, &pb.AddressRequest{Address: a.String(), Delegated: true})
+		case 1:
+			_, _ = p.svc.Addresses(ctx, &pb.AddressesRequest{Addresses: []string{a.String(), p.addrs[rnd.Intn(len(p.addrs))].String()}, Delegated: rnd.Intn(2) == 0})
+		case 2:
+			_, _ = p.svc.Candidates(ctx, &pb.CandidatesRequest{IncludeStakes: true})
+		case 3:
+			_, _ = p.svc.Candidate(ctx, &pb.CandidateRequest{PublicKey: p.pubs[rnd.Intn(len(p.pubs))].String()})
+		case 4:
+			c0, c1 := coin(), coin()
+			_, _ = p.svc.SwapPool(ctx, &pb.SwapPoolRequest{Coin0: uint64(c0), Coin1: uint64(c1)})
+			_, _ = p.svc.LimitOrdersOfPool(ctx, &pb.LimitOrdersOfPoolRequest{SellCoin: uint64(c0), BuyCoin: uint64(c1), Limit: 10})
+		case 5:
+			_, _ = p.svc.BestTrade(ctx, &pb.BestTradeRequest{SellCoin: uint64(coin()), BuyCoin: uint64(coin()), Amount: amount.String(), Type: pb.BestTradeRequest_Type(rnd.Intn(2)), MaxDepth: 4})
+		case 6:
+			_, _ = p.svc.EstimateCoinSell(ctx, &pb.EstimateCoinSellRequest{Sell: &pb.EstimateCoinSellRequest_CoinIdToSell{CoinIdToSell: uint64(coin())},
+				Buy: &pb.EstimateCoinSellRequest_CoinIdToBuy{CoinIdToBuy: uint64(coin())}, ValueToSell: amount.String(), SwapFrom: pb.SwapFrom(rnd.Intn(3))})
+		case 7:
+			_, _ = p.svc.Frozen(ctx, &pb.FrozenRequest{Address: a.String()})
+			_, _ = p.svc.WaitList(ctx, &pb.WaitListRequest{Address: a.String()})
+		case 8:
+			_, _ = p.svc.CoinInfoById(ctx, &pb.CoinIdRequest{Id: uint64(coin())})
+			_, _ = p.svc.SwapPools(ctx, &pb.SwapPoolsRequest{Orders: true})
+		}
 	case "export":
 		h := atomic.LoadUint64(&p.lastH)
 		if h > 0 {
